@@ -1,6 +1,7 @@
 (* C10 - extended events mean exactly their expansion into basic events.
    Statements only; proofs are in Core/EventsProofs.v. *)
-From SF Require Import Base.Prelude Core.Events Core.EventsProofs Core.AdapterProofs.
+From SF Require Import Base.Prelude Core.Events Core.EventsProofs Core.AdapterProofs Cbor.Spec Cbor.Enc Ubjson.Spec Ubjson.Enc Ubjson.Img Json.Enc.
+From SF Require Core.ExtendedProofs.
 
 (* Wrapped plain visitors (structform.EnsureExtVisitor around a Visitor that has none
    of the extended interfaces): for every extended event - each of the 15 typed
@@ -22,3 +23,49 @@ Print Assumptions C10_expansion_same_value.
 Theorem C10_expansion_wellformed : forall evs, contract_ok evs = true -> contract_ok (flat_map expand evs) = true.
 Proof. exact C09_expand_stream. Qed.
 Print Assumptions C10_expansion_wellformed.
+
+(* CBOR encoder, from ANY encoder state (any position inside any enclosing containers, after
+   any output) and for every well-formed tree: writing the tree and writing its expansion into
+   basic events both succeed, leave the length stack exactly as it was (so whatever is written
+   next is unaffected), and the bytes each appends decode - followed by any rest - to the same
+   value. *)
+Theorem C10_cbor_enc : forall t, wf_tree t = true -> SF.Core.ExtendedProofs.cbor_small t = true ->
+  forall e i, w_fail (ce_w e) = None ->
+  exists e1 bs1 e2 bs2,
+    cbor_run e (flatten t) i = (e1, None) /\ cbor_run e (flat_map expand (flatten t)) i = (e2, None) /\
+    ce_len e1 = ce_len e /\ ce_len e2 = ce_len e /\ w_fail (ce_w e1) = None /\ w_fail (ce_w e2) = None /\
+    w_bytes (ce_w e1) = w_bytes (ce_w e) ++ bs1 /\ w_bytes (ce_w e2) = w_bytes (ce_w e) ++ bs2 /\
+    forall rest fuel, (length (bs1 ++ rest) < fuel)%nat -> (length (bs2 ++ rest) < fuel)%nat ->
+      cbor_ref fuel (bs1 ++ rest) = RValue (cv (value_of t)) rest /\
+      cbor_ref fuel (bs2 ++ rest) = RValue (cv (value_of t)) rest.
+Proof. exact SF.Core.ExtendedProofs.C10_cbor_enc. Qed.
+Print Assumptions C10_cbor_enc.
+
+(* UBJSON encoder: the consumer state is the same for EVERY tree; the decoded values are the
+   same exactly when no typed unsigned container mixes values above and below MaxInt64 -
+   the recorded finding F1, proved to be real on the wire. *)
+Theorem C10_ubj_enc_state : forall t e i, w_fail (ue_w e) = None ->
+  exists e1 e2, ubj_run e (flatten t) i = (e1, None) /\ ubj_run e (flat_map expand (flatten t)) i = (e2, None) /\
+                ue_len e1 = ue_len e /\ ue_len e2 = ue_len e.
+Proof. exact SF.Core.ExtendedProofs.C10_ubj_enc_state. Qed.
+Print Assumptions C10_ubj_enc_state.
+
+Theorem C10_ubj_same_value_iff : forall t, wf_tree t = true ->
+  (ubj_img (expand_tree t) = ubj_img t <-> SF.Core.ExtendedProofs.no_mixed_h t = true).
+Proof. exact SF.Core.ExtendedProofs.ubj_img_expand_iff. Qed.
+Print Assumptions C10_ubj_same_value_iff.
+
+Theorem C10_ubj_typed_h_refuted : exists t bs1 bs2 v1 v2, wf_tree t = true /\
+  ubj_encode (flatten t) = Some bs1 /\ ubj_encode (flat_map expand (flatten t)) = Some bs2 /\
+  ubj_decode bs1 = RValue v1 [] /\ ubj_decode bs2 = RValue v2 [] /\ v1 <> v2.
+Proof. exact SF.Core.ExtendedProofs.C10_ubj_typed_h_refuted_wire. Qed.
+Print Assumptions C10_ubj_typed_h_refuted.
+
+(* JSON encoder: for any events, any state, failing writer or not, the run on the events and
+   the run on their expansion end in the same state with the same error (only the index of
+   the failing call differs: an extended event is one call, its expansion several). *)
+Theorem C10_json_enc : forall (ffmt : Z -> Z -> bytes) cfg evs e i j,
+  SF.Core.ExtendedProofs.jrun_forget (json_run cfg ffmt e evs i) =
+  SF.Core.ExtendedProofs.jrun_forget (json_run cfg ffmt e (flat_map expand evs) j).
+Proof. exact SF.Core.ExtendedProofs.json_run_expand_forget. Qed.
+Print Assumptions C10_json_enc.
